@@ -432,6 +432,17 @@ func (o skOp) toOp() mc.Op[*SketchWorld] {
 	}}
 }
 
+func skWithOrder(o skOp, ord mapOrder) skOp {
+	inner := o.real
+	o.name = "[map order " + ord.name + "] " + o.name
+	o.real = func(w *SketchWorld, st []*SkSlot, twin bool) {
+		SetMapOrder(ord.perm)
+		defer SetMapOrder(nil)
+		inner(w, st, twin)
+	}
+	return o
+}
+
 func must(err error, what string) {
 	if err != nil {
 		panic(what + ": " + err.Error())
